@@ -13,9 +13,9 @@ The model follows the code *after* the `fix:` commits of branch `fix-C02`
 The pre-fix behaviour is kept as `…Old` definitions in `Props/C02.lean` only to prove the
 concrete counterexamples.
 
-Not modelled (other properties / out of scope): crop regions given as Geometry /
-BoundingBox / GeoBox (`compute_crop` first branch), `to_crs`, `snap_to`, `enclosing`, `|`, `&`,
-slices with a step (the code raises `NotImplementedError` for steps other than 1).
+The dispatch of the public entry points on the kind of their arguments (shape / resolution spellings,
+index objects incl. stepped slices and regions, `enclosing`, `project`, `GCPGeoBox.to_crs`, …) is
+`Model/C02Glue.lean`.  Not modelled (other properties): `GeoBox.to_crs`, `snap_to`, `|`, `&`.
 -/
 import OdcGeo.Model.IO
 import OdcGeo.Model.Affine
